@@ -30,6 +30,7 @@ def check(run):
     run.attempt(flagtable, run, p)
     run.attempt(applicable, run, p)
     run.attempt(report, run, p)
+    run.attempt(defaulttdda, run, p)
     # what the command line leaves on disk is what the library decided: the detection output file (C06-OUTFILE)
     from .common import shared_rule
     from .c06 import outfile as _outfile
@@ -516,3 +517,42 @@ def flagtable(run, p):
         run.ob('C17-FLAGTABLE', 'tdda %s %s' % (cmd, ' '.join(args)), ok,
                'tdda %s %s %s (expected %s)' % (cmd, ' '.join(args), msg, 'a non-zero exit' if want == 'exit' else want), fn=p.fn('tdda.constraints.flags.%s_flags' % cmd))
     run.floor('C17-FLAGTABLE', n, 15)
+
+
+def defaulttdda(run, p):
+    """tdda verify / detect without a constraints argument use the .tdda file next to the data file"""
+    import posixpath
+    from ..pyeval import Interp, Unsupported, Raised, pure_os, pure_sys
+    run.rule('C17-DEFAULTTDDA', 'the command without a constraints argument judges the data by the constraints file next to it: '
+                                'verify_df_from_file and detect_df_from_file, evaluated with stand-ins for the loader and the library '
+                                'call, hand the library the data path with its last extension replaced by .tdda - also when a '
+                                'directory on the way carries the same extension (export.csv/part-1.csv), when the name has several '
+                                'dots, and when it has no extension')
+    n = 0
+    for fq, lib in (('tdda.constraints.pd.verify.verify_df_from_file', 'verify_df'), ('tdda.constraints.pd.detect.detect_df_from_file', 'detect_df')):
+        f = p.fn(fq)
+        for path in ('/d/x.csv', '/d/export.csv/part-1.csv', '/d/events.parquet/part-0001.parquet', '/d/noext', '/d/v1.2.final.csv', 'rel/a.csv.d/a.csv',
+                     '/d/.csv/x.csv'):
+            seen = []
+
+            def hook(m, args, kwargs, selfobj, seen=seen):
+                if m.name == 'load_df':
+                    return True, '<frame>'
+                if m.name == lib:
+                    seen.append(args[1] if len(args) > 1 else kwargs.get('constraints_path'))
+                    return True, '<result>'
+                return False, None
+            I = Interp(p)
+            I.on_call = hook
+            I.extra_names.update({'os': pure_os(), 'sys': pure_sys(), 'print': lambda *a, **k: None})
+            try:
+                I.call(f, [path, None], {'verbose': False})
+            except Unsupported as e:
+                raise AnalysisError('%s is not evaluable: %s' % (f.short, e))
+            except Raised as e:
+                seen.append('raises %s' % e)
+            want = posixpath.splitext(path)[0] + '.tdda'
+            n += 1
+            run.ob('C17-DEFAULTTDDA', '%s::%s' % (f.short, path), seen[:1] == [want],
+                   '%s(%r, None) hands %s the constraints path %r (next to the data: %r)' % (f.short, path, lib, seen[0] if seen else None, want), fn=f)
+    run.floor('C17-DEFAULTTDDA', n, 14)
